@@ -47,6 +47,41 @@ CLAIMS = {
    "Decides the structural core on every run: every IOS change command is sent by the one sender whose call sites are all dominated by arming the reload and a deferred cancel; configuration mode lies inside the guard; write memory is a plain call after the guarded function returned (cancel has run), nothing is sent in between; reloadActive is raised/lowered only where reload in N / reload cancel are sent; banners are stripped before the echo check; the one-minute verdict derives from the stripped banner and is accumulated over both halves of a joined command and triggers the re-arm. One genuine defect found by this rule was repaired (fix: 6536eea). Not decided: all byte offsets of an asynchronous banner.",
    "Trusted: go/ssa, call graph; banner forms are those bannerRe matches.",
    "DESIGN.md section 4 C15"),
+ "C03": ("other",
+   "field-access sets on go/ssa over call-graph closures (change-state agreement R-HC, object-kind completeness R-FC), inter-procedural string-pattern evaluation of every emitted PAN-OS command (escaping)",
+   "Only the structural part of convergence is decided: the change list stored by GetChanges is what HasChanges/ShowChanges/ApplyCommands read; MergeSpoc merges every object kind of a vsys (rules, addresses, address-groups, services, service-groups) and the transfer/remove phases visit all four object kinds; every non-constant part of an emitted command is URL-escaped. Convergence of the rule/member diff itself (executing the commands on an XML tree) is NOT decided — that needs a device model. Two genuine defects found by these rules were repaired (fix: e7da768, 904a6b3).",
+   "Trusted: go/ssa, call graph. Explicitly not covered: Myers-diff position logic, incremental-vs-replace heuristic, group reuse.",
+   "DESIGN.md section 4 C03-C05"),
+ "C04": ("other",
+   "field-access sets on go/ssa over call-graph closures (R-HC, R-FC) for package nsx",
+   "Only the structural part of convergence is decided: change-state agreement between GetChanges, HasChanges, ShowChanges and ApplyCommands; MergeSpoc merges policies, groups and services and the planner reads all three kinds of both configurations. Convergence of rule/group equalisation is NOT decided (needs executing the REST calls on a manager model).",
+   "Trusted: go/ssa, call graph.",
+   "DESIGN.md section 4 C03-C05"),
+ "C05": ("other",
+   "field-access sets on go/ssa incl. trigger sub-fields of the struct-valued change (R-HC), R-FC for package linux",
+   "Only the structural part is decided: every sub-field of the change that ApplyCommands acts on (routes, iptables) is read by HasChanges and ShowChanges — necessary for 'no change is reported only for an equivalent device' and invisible to drc FILE1 FILE2 tests; MergeSpoc and diffConfig handle both iptables and routes. Normaliser equivalence and route replacement semantics are NOT decided.",
+   "Trusted: go/ssa, call graph.",
+   "DESIGN.md section 4 C03-C05"),
+ "C07": ("other",
+   "guard-set analysis (all controlling conditions of a site, normalised, from go/ssa dominance) compared with an audited table; inter-procedural string-pattern evaluation of PAN-OS commands; guard check of the NSX load filter",
+   "Decides named necessary conditions of the frame property: NSX objects enter the model only under HasPrefix(id, \"Netspoc\"); every PAN-OS command's xpath is rooted at /config/devices/entry[..]/vsys/entry[..] of the targeted vsys; the Cisco protection sites (markNeeded for unknown interfaces / unmanaged VRFs, deletion-candidate test, the walk protecting everything an unmanaged object references, deletion only when unreferenced, no change for aaa-server / ldap attribute-map / interface, routes deleted only where the target has routes) are controlled by exactly their audited conditions. The whole-device frame condition for arbitrary unmanaged content is NOT decided.",
+   "Trusted: go/ssa, call graph, the audited guard sets of tables/guards.tsv (each row with its reason).",
+   "DESIGN.md section 4 C07"),
+ "C08": ("other",
+   "ordered-phase rules by reachability within loop iterations on go/ssa; who-may-call and store enumeration for config-mode bookkeeping; constant agreement; string-pattern evaluation (must-pass-sanitiser); guard-set table",
+   "Decides necessary conditions of 'executable when sent': create-before-use and delete-after-last-use phase orders in the PAN-OS, NSX and Cisco planners; every emission goes through the helpers that maintain the configuration mode (two audited exceptions followed by a helper); the IOS numbering constants (resequence step, multipliers, insert bound) are one integer; every non-constant part of a PAN-OS command is URL-escaped; the deletion-dependency conditions are the audited ones. Referential validity of a concrete script is NOT decided.",
+   "Trusted: go/ssa, call graph, audited guard rows.",
+   "DESIGN.md section 4 C08, Appendix B"),
+ "C14": ("other",
+   "ordered-phase rules by reachability within loop iterations on go/ssa (insert/move before reverse before delete; resequence first/last; routes add before delete; sort before compare); store-vs-use phase rule for the IOS block marking",
+   "Decides the order skeleton that the safety argument rests on: in both ACL planners every insert/move precedes the reversal of the delete list, which precedes every delete, and the reversed list is the one walked; IOS resequence brackets all numbered commands; the block-id marking is complete before any move decision; route inserts/replacements precede deletes for Cisco and Linux, routes are sorted more-specific-first before comparison. Packet-level verdicts of intermediate ACLs are NOT decided.",
+   "Trusted: go/ssa, call graph.",
+   "DESIGN.md section 4 C14, Appendix B"),
+ "C18": ("other",
+   "field-access completeness (R-FC) for the merge functions, table-driven error discipline in merge code, nil-edge analysis of template matching (raw strictness), clamp check of the APPEND index, call-order check of loadSpoc",
+   "Decides structural parts: every object kind of every device family is merged; no error is dropped in merge code; v4, v6 and raw are loaded and merged in that order with the right operands; an unknown top-level command in a raw file is an error (the sub-command level is a recorded known finding); the backwards search for the last permit line is clamped before it is used as slice bound (the documented boundary case, repaired by fix: 9b28a4b). Positions of prepend/append inside merged lists are NOT decided.",
+   "Trusted: go/ssa, call graph, tables/err_exempt.tsv.",
+   "DESIGN.md section 4 C18"),
 }
 
 NOT_APPLICABLE = {
